@@ -755,7 +755,7 @@ def gen_model_cases(rng, n):
         align = rng.choice(ALIGNS + [None])
         pos = [rng.randrange(-ay - 1, oy + 2), rng.randrange(-ax - 1, ox + 2)]
         style = "qe" if via == "qe_map" else ("index" if rng.random() < 0.7 else "qe")
-        dtype = "float64" if fmt not in ("npy", "fits") or via == "qe_map" else rng.choice(["float64", "float64", "int32", "float32"])
+        dtype = "float64" if fmt not in ("npy", "fits") or via == "qe_map" else rng.choice(["float64", "float64", "int32", "float32", "uint16", "uint32"])
         if dtype != "float64":
             style = "index"
         extra = {}
@@ -936,8 +936,11 @@ def gen_format(rng, n):
             ay, ax = rng.choice([12, 20, 41]), rng.choice([5, 8, 13, 24])
         kind = rng.choice(["int", "float", "bits", "special"])
         dtype = "float64"
-        if fmt in ("npy", "fits") and loader == "image" and kind == "int":
-            dtype = rng.choice(["int32", "uint16", "float32", "float64"])
+        if fmt in ("npy", "fits") and loader == "image":
+            # every pixel type in turn (unsigned FITS images are stored with BZERO and rescaled on reading)
+            dtype = ["float64", "uint16", "int32", "float32", "uint32", "int16", "uint8", "int64", "float64"][(i // len(combos)) % 9]
+            if dtype != "float64":
+                kind = "int"
         arr = []
         for _ in range(ay):
             row = []
@@ -1000,7 +1003,7 @@ def violation_key(case, why):
         return "C20:apply_qe_curve:named-columns"
     if s == "format" and "symbolic link" in why:
         return f"C20:load_{case['loader']}:stale-path-resolution"
-    if s == "format" and "named in the" in why:
+    if s == "format" and "named in the" in why and ("not supported" in why or "implemented" in why):
         return f"C20:load_{case['loader']}:file-name"
     return f"C20:load_{case['loader']}:{'text' if case['fmt'] in ('txt', 'data', 'csv') else case['fmt']}:" + (
         "values" if "value at" in why else "shape-or-error")
@@ -1120,6 +1123,8 @@ def body(ck: common.Check):
                 ck.count(f"format:outcome={'ok' if 'ok' in impl else 'error'}")
                 ck.count("format:size=" + ("wide-and-long" if case["ax"] >= 5 and case["ay"] >= 12 else "small"))
                 ck.count(f"format:file-name={case.get('name_style', 'plain')}")
+                if case["loader"] == "image" and case["fmt"] in ("npy", "fits"):
+                    ck.count(f"format:image:{case['fmt']}:dtype={case['dtype']}")
                 ck.count("format:given-as=" + ("Path through a re-pointed symlink" if case.get("relink") else "Path" if case.get("as_path") else "str"))
                 if case["loader"] == "image" and case["fmt"] in ("txt", "data"):
                     m = ans["model"]
